@@ -68,6 +68,10 @@ def _directories_of(path):
     return [given] if os.path.realpath(given or os.curdir) == real else [real, given]
 
 
+def _context(path):
+    return tuple(os.path.realpath(directory or os.curdir) for directory in _directories_of(path))
+
+
 class FileProcessor(object):
 
     def __init__(self, process_content, include_dirs):
@@ -83,6 +87,8 @@ class FileProcessor(object):
         self.includes_of = {}
         self.including = None
         self.heights = {}
+        self.verified = set()
+        '''(absolute path, directories searched first) of the files whose includes were resolved or compared from there'''
         '''Absolute paths are keys, values are the lengths of the longest include chains starting at the files'''
         '''Absolute paths are keys, values are the includes of that file: (leaf, absolute path it was found at)'''
 
@@ -125,6 +131,22 @@ class FileProcessor(object):
         finally:
             self.own_dirs = saved
 
+    def _same_includes(self, abspath, path):
+        """
+        Parsed once, a file stands for every path that reaches it: from each of them its includes, and the includes of
+        those reached through another path than before, have to be the same files.
+        """
+        if (abspath, _context(path)) in self.verified:
+            return
+        self.verified.add((abspath, _context(path)))
+        for leaf, found in self.includes_of[abspath]:
+            here = self._find(leaf)
+            if (here and os.path.realpath(here)) != found:
+                raise AmbiguousIncludeError(path, leaf, found, here)
+            if here:
+                with swap_dir(self.include_dirs, _directories_of(here)[0]), self._own_dirs(here):
+                    self._same_includes(found, here)
+
     def _process_file(self, path):
         abspath = os.path.realpath(path)   # one file reached through a symbolic link is still one file
         name = os.path.splitext(os.path.basename(path))[0]
@@ -133,14 +155,11 @@ class FileProcessor(object):
         if abspath in self.files:
             if self.files[abspath] is None:
                 raise CyclicIncludeError(path)
-            """ parsed once, the file stands for every path that reaches it: its includes have to be the same files from here """
-            for leaf, found in self.includes_of[abspath]:
-                here = self._find(leaf)
-                if (here and os.path.realpath(here)) != found:
-                    raise AmbiguousIncludeError(path, leaf, found, here)
+            self._same_includes(abspath, path)
             return self.files[abspath]
         self.files[abspath] = None
         self.includes_of[abspath] = []
+        self.verified.add((abspath, _context(path)))
 
         try:
             with codecs.open(path, 'r', encoding='utf-8-sig') as f:
